@@ -234,3 +234,15 @@ Proof.
   destruct (ow_loc w); cbn in *; try discriminate; split; try reflexivity; try discriminate;
     intro C; try discriminate. exists k. reflexivity.
 Qed.
+
+(* a measured footprint accepted by fp_spec_ok only fills memo cells or
+   overwrites them with an equivalent value: nothing is removed *)
+Lemma measured_memo_monotone_l x :
+  fp_spec_ok x = true ->
+  forall w, In w (fc_writes x ++ fc_transient x) ->
+    is_cache_loc (ow_loc w) = true -> (ow_kind w <= 1)%N.
+Proof.
+  unfold fp_spec_ok, fp_monotone. rewrite !andb_true_iff, !forallb_forall.
+  intros [_ H] w Hw C. specialize (H w Hw). unfold memo_write_monotone in H.
+  destruct (ow_loc w); cbn in C; try discriminate; apply N.leb_le; exact H.
+Qed.
